@@ -292,3 +292,19 @@ Theorem C20_snapshot_get_slice_refuted :
   /\ xoutputs xfixed cfg_both 16 snap_prog = xoutputs xfixed cfg_both 16 (x_no_scribbles snap_prog).
 Proof. exact snapshot_get_slice_refuted. Qed.
 Print Assumptions C20_snapshot_get_slice_refuted.
+
+(* 17. C20_x_scribbles_do_not_matter_partial.  The full statement for the extended machine would be
+         forall c pbase p, xoutputs xfixed c pbase p = xoutputs xfixed c pbase (x_no_scribbles p).
+       Proved here is its write side, for every program: a client scribble changes client-owned cells only (no arena, no
+       cached, pooled or held block buffer, no iterator buffer; no record).  Missing: the read side as a theorem (that no
+       step reads a client-owned cell other than through the arguments it is given) — it is what separation (10),
+       single ownership (9) and exposure stability (12, 13) are the ingredients of, and what the refutation (16) shows to
+       fail for the mutant. *)
+Theorem C20_x_scribbles_do_not_matter_partial : forall c pbase p i pos g,
+  let s := xfinal xfixed c pbase p in
+  let s' := xscribble s i pos g in
+  (forall l, hown (xhp s) l <> Some Client -> hget (xhp s') l = hget (xhp s) l) /\
+  (forall l, hown (xhp s') l = hown (xhp s) l) /\
+  xset_hp s' (xhp s) = s.
+Proof. exact scribble_hits_client_memory_only. Qed.
+Print Assumptions C20_x_scribbles_do_not_matter_partial.
